@@ -119,13 +119,13 @@ def judgeAll (cases : Array Case) (obs : Array ObsLine) (f : Case â†’ ObsLine â†
       match f c o with
       | .ok => pure ()
       | .disagree w e g =>
-        let j := Json.mkObj [("id", (c.id : Json)), ("what", (w : Json)), ("op", (c.op : Json)), ("a", c.args), ("expected", (e : Json)), ("observed", (g : Json)), ("tag", (c.tag : Json)), ("note", c.note)]
+        let j := Json.mkObj [("id", (c.id : Json)), ("what", (w : Json)), ("op", (c.op : Json)), ("a", c.args), ("expected", (e : Json)), ("observed", (g : Json)), ("tag", (c.tag : Json)), ("note", c.note), ("kf", (c.note.getObjVal? "kf").toOption.getD ("" : Json))]
         r := { r with disagreements := r.disagreements.push j }
       | .violation w d =>
-        let j := Json.mkObj [("id", (c.id : Json)), ("what", (w : Json)), ("op", (c.op : Json)), ("a", c.args), ("detail", (d : Json)), ("tag", (c.tag : Json))]
+        let j := Json.mkObj [("id", (c.id : Json)), ("what", (w : Json)), ("op", (c.op : Json)), ("a", c.args), ("detail", (d : Json)), ("tag", (c.tag : Json)), ("kf", (c.note.getObjVal? "kf").toOption.getD ("" : Json))]
         r := { r with violations := r.violations.push j }
       | .crash w =>
-        let j := Json.mkObj [("id", (c.id : Json)), ("what", (w : Json)), ("op", (c.op : Json)), ("a", c.args), ("st", (o.st : Json)), ("code", (o.code : Json))]
+        let j := Json.mkObj [("id", (c.id : Json)), ("what", (w : Json)), ("op", (c.op : Json)), ("a", c.args), ("st", (o.st : Json)), ("code", (o.code : Json)), ("kf", (c.note.getObjVal? "kf").toOption.getD ("" : Json))]
         r := { r with crashes := r.crashes.push j }
   pure r
 
